@@ -254,6 +254,7 @@ pub struct PipeState {
     pub closed_stamp:   AtomicU64,
     pub mpsc_tx:        Mutex<Option<futures::channel::mpsc::UnboundedSender<OpId>>>,
     pub mpsc_rx:        Mutex<Option<futures::channel::mpsc::UnboundedReceiver<OpId>>>,
+    pub push_lock:      Mutex<()>,
     /// classification of the moment the output stream was dropped (C16)
     pub drop_class:     AtomicU32,
 }
@@ -856,7 +857,7 @@ pub fn build(prog: Program, native: bool) -> Handles {
     let pipes = prog.pipes.iter().map(|pd| { let (tx, rx) = if pd.mpsc { let (tx, rx) = futures::channel::mpsc::unbounded(); (Some(tx), Some(rx)) } else { (None, None) }; PipeState {
         input: Mutex::new(InputCore { q: Default::default(), closed: false, waker: None, polls: 0, pending_polls: 0 }), input_drops: AtomicU32::new(0), closure_drops: AtomicU32::new(0),
         created: AtomicU64::new(0), stream_dropped: AtomicU64::new(0), outputs: Mutex::new(vec![]), out_ended: AtomicBool::new(false), consumer_parks: AtomicU32::new(0),
-        pushed: AtomicUsize::new(0), closed_stamp: AtomicU64::new(0), mpsc_tx: Mutex::new(tx), mpsc_rx: Mutex::new(rx), drop_class: AtomicU32::new(0),
+        pushed: AtomicUsize::new(0), closed_stamp: AtomicU64::new(0), mpsc_tx: Mutex::new(tx), mpsc_rx: Mutex::new(rx), push_lock: Mutex::new(()), drop_class: AtomicU32::new(0),
     } }).collect();
     let n = prog.ops.len();
     let ctx = Arc::new(RunCtx {
